@@ -12,9 +12,12 @@ LOG2_ACTIONS = ["U8One", "U8Pow2", "U8Three", "U8Fourth", "U8Square", "U16Pow2",
 
 
 # ------------------------------------------------------------------ helpers
-def par_monitors(ctx, jobs, threads=4, timeout=2400, heap="5g"):
+def par_monitors(ctx, jobs, threads=4, timeout=2400, heap="5g", spec=None, mon=None, hooks=None):
     """Runs several monitors (one TLC process each, 1 worker) side by side, then accounts them one after
     the other through ctx.monitor (whose TLC call is answered from the results already computed)."""
+    spec = spec or SPEC
+    mon = mon or MON
+    h_nontrivial, h_cover, h_key = hooks or (nontrivial, cover, key)
     jobs = [j for j in jobs if os.path.exists(j[1]) and os.path.getsize(j[1]) > 0]
     results = {}
 
@@ -23,7 +26,7 @@ def par_monitors(ctx, jobs, threads=4, timeout=2400, heap="5g"):
 
     def run(job):
         name, trace = job[0], job[1]
-        return name, fw.tlc(name, os.path.join(fw.SPEC, SPEC), MON[0], MON[1], ctx.rundir, workers=1, timeout=timeout,
+        return name, fw.tlc(name, os.path.join(fw.SPEC, spec), mon[0], mon[1], ctx.rundir, workers=1, timeout=timeout,
                             env={"TRACE": trace, "JAVA_TOOL_OPTIONS": jopts}, deque=True, heap=heap)
 
     with ThreadPoolExecutor(max_workers=threads) as ex:
@@ -36,7 +39,7 @@ def par_monitors(ctx, jobs, threads=4, timeout=2400, heap="5g"):
         fw.tlc = lambda name, *a, **k: results[name]
         try:
             for job in jobs:
-                verdicts[job[0]] = ctx.monitor(job[0], SPEC, MON[0], MON[1], job[1], nontrivial=nontrivial, cover=cover, key=key)
+                verdicts[job[0]] = ctx.monitor(job[0], spec, mon[0], mon[1], job[1], nontrivial=h_nontrivial, cover=h_cover, key=h_key)
         finally:
             fw.tlc = orig
     return verdicts
@@ -250,7 +253,7 @@ def run(ctx):
     mc_thread.start()
 
     # 2. spec -> impl: the partition enumerated by TLC
-    step16 = ctx.pick(16, 1)
+    step16 = ctx.pick(32, 1)
     ctx.scope.update({"u16_stride": step16, "u8": "exhaustive (all pairs for gcd)"})
     gcfg = fw.write_cfg(ctx.path("Gen_C12.cfg"), invariants=["Emit"],
                         constants={"Seed": ctx.seed % 1000, "Step16": step16, "Big": "FALSE" if ctx.quick else "TRUE"})
@@ -301,6 +304,10 @@ def run(ctx):
         fw.tlc = orig
     und = sum(v.get("undecided", 0) for v in verdicts.values())
     chk = sum(v.get("log2bounds", 0) for v in verdicts.values())
+    # DRIFT: no_std outputs that differ from the transcribed estimator (Log2Fp8); reported, never a verdict
+    ctx.drift += sum(v.get("drift", 0) for v in verdicts.values())
+    if ctx.drift:
+        fw.log("DRIFT: %d no_std log2_bounds results differ from the Log2Fp8 model (the definition still decides)" % ctx.drift)
     if chk and und * 20 > chk:
         raise fw.ToolError("vacuity: %d of %d log2 bounds could not be decided by the enclosure" % (und, chk))
     rc = ctx.finish(
